@@ -478,17 +478,19 @@ def run_history(case):
                     res = invoke(keys[op[1]], w)
                 except Exception as e:  # noqa
                     out.append(f'EXC {type(e).__name__}')
-                    handles.append((op[1], None))
+                    handles.append((op[1], None, ('val', 'None')))
                     continue
-                handles.append((op[1], res))
+                kind, rv = kref[op[1]]
+                handles.append((op[1], res, (kind, [a.copy() for a in rv] if kind != 'val' else rv)))
                 returned.extend(comps(res))
                 out.append(f'h{len(handles) - 1} ' + dirty_positions(res, kref[op[1]]))
             elif o == 'read':
                 if not (0 <= op[1] < len(handles)):
                     out.append('bad-handle')
                     continue
-                kid, res = handles[op[1]]
-                out.append(dirty_positions(res, kref[kid]))
+                # what the caller expects to find: the value it was handed plus its own writes
+                kid, res, expect = handles[op[1]]
+                out.append(dirty_positions(res, expect))
             elif o == 'mutate':
                 if not (0 <= op[1] < len(handles)):
                     out.append('bad-handle')
@@ -499,15 +501,20 @@ def run_history(case):
                     continue
                 try:
                     cs[op[2]].flat[op[3]] = POISON
-                    out.append('ok')
-                except ValueError:
-                    out.append('ro')
+                    handles[op[1]][2][1][op[2]].flat[op[3]] = POISON
+                except ValueError:      # a read-only result: nothing was written
+                    pass
+                out.append('ok')
             elif o == 'scribble':
                 for a in returned:
                     try:
                         a[...] = POISON
                     except ValueError:
                         pass
+                for _, res, expect in handles:
+                    for a, e in zip(comps(res), expect[1] if expect[0] != 'val' else []):
+                        if a.flags.writeable:
+                            e[...] = POISON
                 out.append('ok')
             elif o == 'seed':
                 np.random.seed(op[1])
@@ -1089,7 +1096,7 @@ class C10(Spec):
     }
 
     def cases(self, rng, tier):
-        n = 1 if tier == 'quick' else 12
+        n = 3 if tier == 'quick' else 30
         if tier == 'thorough':
             self.PARALLEL = 16
         for c in malformed_cases():
